@@ -82,13 +82,15 @@ MaintApply(S, o) ==
       [] o.op = "MReload"   -> IF ~S.final THEN R(S, MErr, NoneR) ELSE R(S, "ok", [k |-> "entries", v |-> S.entries])
       \* copy(): same entries, NOT finalized; the original is untouched
       [] o.op = "MCopy"     -> R([S EXCEPT !.final = FALSE], "ok", [k |-> "entries", v |-> S.entries])
+      \* a copy is edited (add, remove): the copy shows the edit, the record it was copied from does not
+      [] o.op = "MCopyEdit" -> R(S, "ok", [k |-> "entries", v |-> Without(Over(S.entries, [n \in {o.add} |-> "Maint"]), {o.rem})])
 
 \* ---------------------------------------------------------------- simple codecs: the decoded value equals the original
 \* value classes are opaque tokens; the expected result is the identity (plus class-specific facts)
 Simple(o) ==
     CASE o.cls = "Tags"      -> [k |-> "simple", dec |-> o.val, absent |-> FALSE, same_text |-> TRUE]
       [] o.cls \in {"MeasurementData", "UserData", "LayoutData"}
-                             -> [k |-> "simple", dec |-> IF o.val = "none" THEN "emptyobj" ELSE o.val, absent |-> FALSE, same_text |-> TRUE]
+                             -> [k |-> "simple", dec |-> IF o.val = "none" THEN "emptyobj" ELSE o.val, absent |-> FALSE, same_text |-> TRUE]  \* only None means "no data"; 0, false, [], "" are data
       [] o.cls = "Gateway"   -> [k |-> "simple", dec |-> o.val, absent |-> FALSE, same_text |-> TRUE]
       [] o.cls \in {"PathInfo", "ERO"} -> [k |-> "simple", dec |-> o.val, absent |-> FALSE, same_text |-> TRUE]
       [] o.cls \in {"Label", "Capacity", "LocationTuple", "AllocationConstraint"}
